@@ -378,6 +378,9 @@ func execC18(cs *C18Case, tier string, replay bool, st *C18Stats) (*Violation, u
 			if st != nil {
 				st.SoloSharedMut++
 			}
+			if *flagVerbose {
+				fmt.Fprintf(os.Stderr, "C18 seed %d: client %d alone changes a shared tensor; setup %v program %v\n", cs.Seed, c, cs.Setup, prog)
+			}
 			return nil, 0
 		}
 	}
